@@ -14,12 +14,17 @@ import tempfile
 from ..core import Ctx, generic_replay
 from ..tlc import MachineryError
 
+# Developer override (like VERIF_REPO; registered commands never set it): replay only every k-th enumerated state and
+# draw 1/k of the random cases, to try a mutant quickly.  With k > 1 no exhaustiveness is claimed.
+DEV_STRIDE = max(1, int(os.environ.get("VERIF_DEV_STRIDE", "1") or 1))
+
 ID = "C12"
 LEVEL = "model_checking"
 TRACE = "Trace_Bins"
 REQUIRE_CLAUSES = ["tgt_unsplit_unchanged", "tgt_split_disjoint_ordered", "tgt_split_covers_union", "tgt_split_equal_bins",
                    "tgt_labels_keep_bins", "anti_named", "anti_inside_shrunk_access", "anti_clear_of_targets",
-                   "anti_disjoint", "anti_sizes", "anti_covers_free"]
+                   "anti_disjoint", "anti_at_least_min", "anti_at_most_1p5_avg", "anti_covers_free_targeted",
+                   "anti_covers_free_canonical"]
 REQUIRE_ACTIONS = ["MC_Bins.Call"]
 
 MARGIN = 500          # "the 500-base margin" of the property statement (not read from the code)
@@ -368,7 +373,7 @@ def run(ctx: Ctx):
         del states
         if len(inputs) * 2 != r.distinct:
             raise MachineryError(f"dump replay: {len(inputs)} calls parsed, TLC reports {r.distinct} states")
-        out = ctx.execute(execute, inputs)
+        out = ctx.execute(execute, inputs[::DEV_STRIDE])
         recs += out
         scope_notes.append(f"{scope} {kw}: {len(out)} calls")
         ctx.notes[f"scope{k}"] = {"scope": scope, "constants": kw, "tlc_states": r.distinct, "replayed": len(out)}
@@ -381,7 +386,10 @@ def run(ctx: Ctx):
     ctx.mc("MC_Bins", cfg, dump=False, timeout=600)
     ctx.exhaustive = "; ".join(scope_notes) + " -- every dumped call replayed (antitarget coordinates = grid x 500/Pad)"
 
-    n_rand = 30000 if thorough else 3000
+    n_rand = (30000 if thorough else 3000) // DEV_STRIDE
+    if DEV_STRIDE > 1:
+        ctx.exhaustive = None
+        ctx.notes["dev_stride"] = DEV_STRIDE
     rnd = ctx.execute(execute, [random_target(ctx.rng) if k % 2 else random_antitarget(ctx.rng) for k in range(n_rand)])
     recs += rnd
     for rec in recs:
